@@ -96,10 +96,9 @@ class Module(object):
         self.refactor_info = {}
         if not os.environ.get("WV_NO_INLINE"):
             from . import inline
-            self.tree, self.refactor_info = inline.apply(name, self.tree)
-        if not os.environ.get("WV_NO_DESUGAR"):
-            from .desugar import desugar
-            self.tree = desugar(self.tree)
+            # helpers are dropped, and the normal forms applied, by Program._load once every module is parsed (a new helper may
+            # be called from a subclass in another module)
+            self.tree, self.refactor_info = inline.apply(name, self.tree, drop=False)
         self.lines = source.splitlines()
         self.imports = {}  # local name -> ("module", dotted) | ("symbol", dotted_module, name)
         self.star_imports = []  # dotted module names
@@ -171,18 +170,31 @@ class Program(object):
                     r = calls.resolve(f, c)
                 except Exception:
                     continue
-                if r.kind != "exact" or len(r.targets) != 1:
+                if r.kind not in ("exact", "cha", "typed") or not r.targets:
                     continue
-                t = r.targets[0]
-                a = t.node.args
-                if getattr(a, "posonlyargs", None):
+
+                def plist(t):
+                    a = t.node.args
+                    if getattr(a, "posonlyargs", None):
+                        return None
+                    ps = [x.arg for x in a.args]
+                    unbound = isinstance(c.func, ast.Attribute) and c.args and isinstance(c.args[0], ast.Name) and c.args[0].id == "self" \
+                        and "classmethod" not in t.decorators and norm.canon(c.func.value) != "self" and not isinstance(c.func.value, ast.Call) \
+                        and t.cls is not None
+                    if t.cls is not None and "staticmethod" not in t.decorators and ps and ps[0] in ("self", "cls") and not unbound:
+                        ps = ps[1:]
+                    return ps
+                plists = [plist(t) for t in r.targets]
+                if any(p is None for p in plists):
                     continue
-                params = [x.arg for x in a.args]
-                unbound = isinstance(c.func, ast.Attribute) and c.args and isinstance(c.args[0], ast.Name) and c.args[0].id == "self" \
-                    and "classmethod" not in t.decorators and norm.canon(c.func.value) != "self" and not isinstance(c.func.value, ast.Call) \
-                    and t.cls is not None
-                if t.cls is not None and "staticmethod" not in t.decorators and params and params[0] in ("self", "cls") and not unbound:
-                    params = params[1:]
+                # a method with overrides: every implementation the call may reach must name the parameters alike, in the same order
+                params = plists[0]
+                if any(p != params for p in plists[1:]):
+                    n_ = min(len(p) for p in plists)
+                    k_ = 0
+                    while k_ < n_ and all(p[k_] == params[k_] for p in plists):
+                        k_ += 1
+                    params = params[:k_]
                 i = len(c.args)
                 kws = dict((k.arg, k) for k in c.keywords)
                 moved = False
@@ -222,6 +234,31 @@ class Program(object):
                 except SyntaxError as e:
                     raise AnalysisError("cannot parse %s: %s" % (rel, e))
                 self.modules[name] = m
+        if not os.environ.get("WV_NO_INLINE"):
+            from . import inline
+            trees = dict((n_, m_.tree) for n_, m_ in self.modules.items())
+            across = inline.inline_across_modules(trees)
+            for n_, callers in across.items():
+                self.modules[n_].refactor_info.setdefault("inlined_into", []).extend(callers)
+            refs = {}
+            for n_, m_ in self.modules.items():
+                for x in ast.walk(m_.tree):
+                    if isinstance(x, ast.Attribute):
+                        refs.setdefault(x.attr, set()).add(n_)
+                    elif isinstance(x, ast.Name):
+                        refs.setdefault(x.id, set()).add(n_)
+                    elif isinstance(x, ast.alias):
+                        refs.setdefault(x.name, set()).add(n_)
+            for n_, m_ in self.modules.items():
+                if m_.refactor_info.get("inlined_into"):
+                    ext = set(k for k, v in refs.items() if v - {n_})
+                    dropped = inline.finish(n_, m_.tree, ext)
+                    if dropped:
+                        m_.refactor_info["dropped_helpers"] = dropped
+        if not os.environ.get("WV_NO_DESUGAR"):
+            from .desugar import desugar
+            for m_ in self.modules.values():
+                m_.tree = desugar(m_.tree)
         for m in self.modules.values():
             self._index_module(m)
 
